@@ -3,7 +3,9 @@ import MakoModel.Conc.Lemmas
 The critical section of `_load` terminates: a measure on (collection, program counter of the holder) that every step
 of the holder decreases strictly (until it releases the mutex) and no step of another thread increases.  The only
 loop inside the critical section is `LRUCache._manage_size`; its `KeyError → break → loop again` path is taken only
-when another thread has removed an entry meanwhile, i.e. the collection has shrunk.
+when another thread has removed an entry meanwhile, i.e. the collection has shrunk.  A second-chance hit leaves the
+critical section at once (`gRelS`, measure 0); the `_check` that follows – and a possible re-entry into `_load` – runs
+outside the mutex and is a fresh acquisition.
 -/
 namespace MakoModel.Conc
 open MakoModel.Generated.Lookup
